@@ -575,3 +575,68 @@ def o9_2_confirm(v, out):
     lost wake-up one of them never returns (watchdog)."""
     hung = bool(out.get('_timeout')) or out.get('all_returned') == 'false'
     return (hung, 'three concurrent compact_range calls: %s' % ('at least one never returned (lost wake-up)' if hung else 'all returned'))
+
+
+# =============================================================== O5.2 group commit
+def o5_2_group_commit(mir, tier):
+    """DB::build_group_commit_batch: the writers whose batches are merged into the group are exactly the queue prefix that ends
+    with the returned last writer - a writer that is acknowledged with the group's result has had its batch written."""
+    fn = mir.method('DB', 'build_group_commit_batch')
+    NW = 3 if tier == 'quick' else 4
+    res = Result('O5.2 DB::build_group_commit_batch', [fn.path], 'writer queue of 1..%d writers; batch sizes, synchronous flags and presence of a batch free' % NW)
+    t0 = time.time()
+    for n in range(1, NW + 1):
+        S = lib.std_summaries(); P = S['$patterns']
+        P[GUARD] = lib.ptr_deref
+        sizes = [BitVec('batch_size%d' % i, 64) for i in range(n)]; sync = [Bool('sync%d' % i) for i in range(n)]; has = [Bool('has_batch%d' % i) for i in range(n)]
+        pre = [ULT(s_, bv(1 << 40)) for s_ in sizes] + [has[0]]
+        writers = [{'writer': i, '__ty': 'Writer'} for i in range(n)]
+        P[r'VecDeque::is_empty'] = lambda se, env, pc, q: lib.one(env, BoolVal(False))
+        P[r'VecDeque::front'] = lambda se, env, pc, q: lib.one(env, Enum('Some', (Ref('$w0'),)))
+        P[r'VecDeque::iter'] = lambda se, env, pc, q: lib.one(env, {'it': [Ref('$w%d' % i) for i in range(n)]})
+        P[r'<std::collections::vec_deque::Iter<.*> as Iterator>::next'] = lib.it_next
+        P[r'<std::collections::vec_deque::Iter<.*> as IntoIterator>::into_iter'] = lib.ident
+        P[r'<Arc<Writer> as Deref>::deref'] = lib.ptr_deref
+        def maybe_batch(se, env, pc, w):
+            i = se.deref(env, w)['writer']
+            return [(has[i], Enum('Some', ({'batch_of': i, '__ty': 'Batch'},)), env['$state']), (Not(has[i]), Enum('None'), env['$state'])]
+        P[r'Writer::maybe_batch'] = maybe_batch
+        P[r'Writer::is_synchronous_write'] = lambda se, env, pc, w: lib.one(env, sync[se.deref(env, w)['writer']])
+        P[r'Batch::get_approximate_size'] = lambda se, env, pc, b: lib.one(env, sizes[se.deref(env, b)['batch_of']])
+        P[r'Batch::new'] = lambda se, env, pc: lib.one(env, {'group': True, '__ty': 'Batch'})
+        def append(se, env, pc, g, b):
+            st = dict(env['$state']); st['appended'] = st['appended'] + [se.deref(env, b)['batch_of']]; return [(None, (), st)]
+        P[r'Batch::append_batch'] = append
+        P[r'Arc::clone'] = lib.deref1
+        ex = Exec(mir, S, loop_bound=n + 3, opaque_calls_ok=True)
+        def k(ret, env, pc, n=n, ex=ex):
+            app = env['$state']['appended']
+            if not (isinstance(ret, Enum) and ret.tag == 'Ok'):
+                res.violations.append({'label': 'building a group commit fails although the queue head has a batch', 'replay': None, 'confirmed_by': {'reproduced': False, 'detail': ''}}); return
+            last = ret.fields[0][1]
+            li = last['writer'] if isinstance(last, dict) and 'writer' in last else None
+            posts = [('the returned last writer is not a writer of the queue', BoolVal(li is not None))]
+            if li is not None:
+                posts.append(('a writer acknowledged with the group (at or before the returned last writer) did not have its batch merged into the group', And(*[Or(Not(has[i]), BoolVal(i in app)) for i in range(li + 1)])))
+                posts.append(('a batch behind the returned last writer was merged into the group (it will be written twice)', BoolVal(all(i <= li for i in app))))
+                posts.append(('batches are merged out of queue order', BoolVal(app == sorted(app) and len(set(app)) == len(app))))
+            res.cases['n=%d appended=%s last=%s' % (n, app, li)] = 1
+            for label, post in posts:
+                ex.record_formula(label, pc, Not(post))
+                m = ex.model(Not(post))
+                if m is not None: res.violations.append({'label': label, 'appended': app, 'last_writer': li, 'sizes': [mval(m, x) for x in sizes], 'replay': ['sched_group_commit']})
+        env = {'$state': {'appended': []}, '$db': {'abstract': True, '__ty': 'DB'}, '$g': mir.mk_struct('GuardedDbFields', writer_queue={'abstract': True, '__ty': 'VecDeque'}), '$guard': Ref('$g')}
+        for i in range(n): env['$w%d' % i] = writers[i]
+        ex.top(fn, [Ref('$db'), Ref('$guard')], env, pre, k)
+        res.absorb(ex)
+    res.wall_s = time.time() - t0
+    if res.violations: res.status = 'violation'
+    return res
+
+
+def o5_2_confirm(v, out):
+    """Native: while a writer is in its unlocked section two more writers queue up (a small put, then a 200 KiB put that does not
+    fit into the small writer's group); every acknowledged put must be readable."""
+    if out.get('_rc') != 0: return (False, 'native run failed: %s' % out.get('_stderr', '')[-300:])
+    bad = out.get('big_put') == 'ok' and out.get('big_get') != 'found'
+    return (bad, 'queued 200 KiB put returned %s, get afterwards: %s; small put %s / %s' % (out.get('big_put'), out.get('big_get'), out.get('small_put'), out.get('small_get')))
